@@ -24,6 +24,10 @@ Proof. exact pdf_beta_textbook. Qed.
 Theorem C02_pdf_chisq_textbook :
   forall (Gam : R -> R) (k : Z) (x : R), 0 < x -> pdf_chisq RO Gam k x = spec_pdf_chisq Gam k x.
 Proof. exact pdf_chisq_textbook. Qed.
+(** the boundary point of the support: the limit of the density from the right (dof = 1 has an infinite limit: the code returns 0 there) *)
+Theorem C02_pdf_chisq_at_zero :
+  forall (Gam : R -> R) (k : Z), (2 <= k)%Z -> pdf_chisq RO Gam k 0 = if (k =? 2)%Z then / (2 * Gam 1) else 0.
+Proof. exact pdf_chisq_at_zero. Qed.
 Theorem C02_pdf_t_textbook : forall (Gam : R -> R) (nu x : R), pdf_t RO Gam nu x = spec_pdf_t Gam nu x.
 Proof. exact pdf_t_textbook. Qed.
 Theorem C02_pdf_pareto_textbook : forall a m x : R, m <= x -> pdf_pareto RO a m x = spec_pdf_pareto a m x.
